@@ -12,9 +12,10 @@ def unsorted_grid(rng, n):
     _, g = inc_grid(rng, n, rng.choice(["uniform", "jitter", "nonuniform"]))
     if rng.random() < 0.4 or n < 4:
         return "descending", g[::-1]
-    k = n // 2
-    a, b = g[:k + 1], g[k - 1:]
-    return "twobanks", (a + [v + 0.37 * (g[1] - g[0]) for v in b])[:n] if len(a) + len(b) >= n else g[::-1]
+    k = (2 * n) // 3
+    a, b = g[:k], g[k // 3:]                 # the second bank starts well inside the first
+    both = a + [v + 0.37 * (g[1] - g[0]) for v in b]
+    return "twobanks", both[:n]
 
 
 def inc_grid(rng, n, kind=None, start0=None):
